@@ -187,6 +187,20 @@ def proto_rule_violations(proto, registered):
         if type_kind(t) in ("I", "S") and type_range(t)[0] > type_range(t)[1]:
             bad.append("empty-integer-range")
             break
+    # limits of float types are numbers with minimum <= maximum (a Single's limits compared as f64)
+    for _, t in proto:
+        if type_kind(t) in ("F", "D"):
+            lim = []
+            for x in (t.split("/") + ["-", "-"])[1:3]:
+                if x == "-":
+                    lim.append(None)
+                elif type_kind(t) == "F":
+                    lim.append(struct.unpack(">f", bytes.fromhex("%08x" % int(x, 16)))[0])
+                else:
+                    lim.append(struct.unpack(">d", bytes.fromhex("%016x" % int(x, 16)))[0])
+            if any(v is not None and v != v for v in lim) or (lim[0] is not None and lim[1] is not None and lim[0] > lim[1]):
+                bad.append("float-limits-unordered-or-nan")
+                break
     bits = sum(type_width(t) for _, t in proto)
     if bits == 0:
         bad.append("all-zero-width")
